@@ -76,6 +76,7 @@ SUMM = [
     ["summarize", [["a1", ["add", ["sum", x], g]]]],  # grouping column in an expression
     ["summarize", [["g", ["sum", x]], ["a1", ["count_star"]]]],  # overwrites a grouping column
     ["summarize", [["a1", ["fill_null", ["sum", x], lit(0)]], ["a2", ["max", b]]]],
+    ["summarize", [["a1", ["case", [[["gt", g, lit(1)], ["sum", x]]], g]], ["a2", ["case", [[["gt", ["max", x], lit(1)], lit(1)]], lit(0)]]]],  # aggregate / grouping column in the branches, aggregate in the condition
     ["summarize", []],  # only the grouping columns
 ]
 POST = [
